@@ -52,6 +52,10 @@ def run(tier, corrupt=False):
                 acts = [dict(h["act"]) for h in r["hist"]]
                 cases.append({"kind": "mut", "prog": r["prog"], "obj": r["obj"], "salt": 0, "actions": acts})
                 meta.append((r, "constructed"))
+                if any(a["op"] == "mutate_arg" for a in acts):
+                    # the caller's iterable need not be a list: byte-sized integer arrays are also passed as a bytearray
+                    cases.append({"kind": "mut", "prog": r["prog"], "obj": r["obj"], "salt": 0, "actions": acts, "arg_kind": "bytearray"})
+                    meta.append((r, "constructed from bytearray"))
                 cases.append({"kind": "mut", "prog": r["prog"], "from_bytes": r["bytes"], "actions": [a for a in acts if a["op"] != "mutate_arg"]})
                 meta.append((r, "deserialized"))
             imp, results = run_drivers_parallel(src, wt, accepted, types, cases)
@@ -66,6 +70,9 @@ def run(tier, corrupt=False):
                 if o["ctor_exc"]:
                     continue        # constructibility is C02's business
                 init = o["initial"]
+                if init["proj_after_serialize"] != init["proj"] or init.get("repr_changed_by_serialize"):
+                    v.violation(f"{r['prog']} ({how}) serialize changes the instance", f"serializing changed the instance: {short(init['proj'])} -> {short(init['proj_after_serialize'])}",
+                                {"prog": r["prog"], "how": how, "obj": r["obj"], "initial": init})
                 if corrupt and n == 12 and o["steps"]:
                     o["steps"][-1]["ser"] = [0] + (o["steps"][-1]["ser"] if isinstance(o["steps"][-1]["ser"], list) else [])
                 base = f"{r['prog']} ({how})"
@@ -82,7 +89,7 @@ def run(tier, corrupt=False):
                         raise MachineryError(st["exc"])
                     if a["op"] == "setattr" and st["exc"] != "AttributeError":
                         v.violation(f"{base} {hist}", f"assignment to {'.'.join(a['path'] + [a['name']])} raised {st['exc'] or 'nothing'} instead of AttributeError", case)
-                    if st["proj"] != init["proj"]:
+                    if st["proj"] != init["proj"] or st["proj_after_serialize"] != init["proj"]:
                         v.violation(f"{base} {hist}", f"the instance changed: {short(st['proj'])} (was {short(init['proj'])})", case)
                     elif st["ser"] != init["ser"]:
                         v.violation(f"{base} {hist}", f"serializing the same instance again gave {st['ser']} (first time {init['ser']})", case)
